@@ -1,5 +1,9 @@
 use crate::runner::*;
 pub mod c01;
+pub mod c02;
+pub mod c06;
+pub mod c07;
+pub mod c19;
 pub mod c04;
 pub mod c05;
 pub mod c12;
@@ -15,6 +19,10 @@ pub fn run(id: &str, tier: &str, seed: u64) -> Option<i32> {
     }
     match id {
         "C01" => go!("C01", "exploration", c01),
+        "C02" => go!("C02", "exploration", c02),
+        "C06" => go!("C06", "exploration", c06),
+        "C07" => go!("C07", "exploration", c07),
+        "C19" => go!("C19", "exploration", c19),
         "C04" => go!("C04", "exploration", c04),
         "C05" => go!("C05", "exploration", c05),
         "C12" => go!("C12", "exploration", c12),
@@ -25,6 +33,10 @@ pub fn run(id: &str, tier: &str, seed: u64) -> Option<i32> {
 pub fn replay(id: &str, case: &serde_json::Value) -> Option<CheckResult> {
     match id {
         "C01" => Some(c01::replay(case)),
+        "C02" => Some(c02::replay(case)),
+        "C06" => Some(c06::replay(case)),
+        "C07" => Some(c07::replay(case)),
+        "C19" => Some(c19::replay(case)),
         "C04" => Some(c04::replay(case)),
         "C05" => Some(c05::replay(case)),
         "C12" => Some(c12::replay(case)),
